@@ -95,6 +95,24 @@ def ctx_items(c):
         if cur.peek() == ";": cur.eat(";")
     return out
 
+def log_items(l):
+    """'L[h(v,v);h();...]' -> [(hid, [value-text, ...])]"""
+    body = l[2:-1]
+    out = []
+    cur = Cur(body)
+    while cur.p < len(body):
+        h = int(cur.until("(")); cur.eat("(")
+        args = []
+        while cur.peek() != ")":
+            st = cur.p
+            p_value(cur)
+            args.append(body[st:cur.p])
+            if cur.peek() == ",": cur.eat(",")
+        cur.eat(")")
+        out.append((h, args))
+        if cur.p < len(body) and cur.peek() == ";": cur.eat(";")
+    return out
+
 def exec_equal(impl, model):
     """compare one EXEC result; returns (equal, abstained)"""
     i, m = split_exec(impl), split_exec(model)
